@@ -3,7 +3,7 @@
 cd /verif
 : > mutants/RESULTS.tsv.tmp
 while IFS="$(printf '\t')" read -r name chk; do
-  r=$(tools/try_patch.sh /verif/mutants/$name.diff $chk | tail -1)
+  r=$(tools/try_patch.sh /verif/mutants/$name.diff $chk | grep -a -m1 ' vs .*: exit ')
   rc=$(echo "$r" | sed -n 's/.*exit \([0-9]*\).*/\1/p'); sig=$(echo "$r" | sed -n 's/.*signature: //p' | cut -c1-140)
   printf '%s\t%s\t%s\t%s\n' "$name" "$chk" "$rc" "$sig" >> mutants/RESULTS.tsv.tmp
 done < mutants/LIST.tsv
